@@ -252,6 +252,12 @@ func (m *Manager) createSignedDataToSubmit(ctx context.Context) ([]*types.Signed
 
 	for _, data := range dataList {
 		if len(data.Txs) == 0 {
+			// Empty data is never published. Once nothing before it is still waiting for the
+			// DA layer it is done: move the watermark past it, otherwise empty blocks stay
+			// pending forever and block production stops at MaxPendingHeadersAndData.
+			if len(signedDataToSubmit) == 0 && data.Metadata != nil {
+				m.pendingData.setLastSubmittedDataHeight(ctx, data.Height())
+			}
 			continue
 		}
 		signature, err := m.getDataSignature(data)
